@@ -11,14 +11,15 @@ CONSTANTS
   Txs,               \* transaction names
   Limit,             \* txLimit = block_size * 2; ReceiveTx refuses when Len(txs) > Limit (sic: strictly greater)
   MaxBlk,
-  KeepCommittedInCache  \* TRUE: a committed transaction stays in the dedup cache (code after the repair)
+  KeepCommittedInCache  \* TRUE: Update records the block's transactions in the dedup cache and they stay there
+                        \* (code after the repair); FALSE: committed transactions are REMOVED from the cache
 
-VARIABLES txs, cache, committed, resub, res
-vars == <<txs, cache, committed, resub, res>>
-view == <<txs, cache, committed, resub>>
+VARIABLES txs, cache, committed, resub, flushed, res
+vars == <<txs, cache, committed, resub, flushed, res>>
+view == <<txs, cache, committed, resub, flushed>>
 
 SeqSet(s) == {s[i] : i \in 1..Len(s)}
-Init == txs = <<>> /\ cache = {} /\ committed = {} /\ resub = {} /\ res = [op |-> "init"]
+Init == txs = <<>> /\ cache = {} /\ committed = {} /\ resub = {} /\ flushed = FALSE /\ res = [op |-> "init"]
 
 Receive(x, r) ==
   /\ r = IF x \in cache THEN "exist" ELSE IF Len(txs) > Limit THEN "full" ELSE "ok"
@@ -26,19 +27,20 @@ Receive(x, r) ==
                       /\ resub' = IF x \in committed THEN resub \cup {x} ELSE resub
      ELSE UNCHANGED <<txs, cache, resub>>
   /\ res' = [op |-> "Receive", x |-> x, r |-> r]
-  /\ UNCHANGED committed
+  /\ UNCHANGED <<committed, flushed>>
 
-Reap(n) == /\ res' = [op |-> "Reap", n |-> n] /\ UNCHANGED <<txs, cache, committed, resub>>
+Reap(n) == /\ res' = [op |-> "Reap", n |-> n] /\ UNCHANGED <<txs, cache, committed, resub, flushed>>
 
 Update(B) ==
   /\ Cardinality(B) <= MaxBlk
   /\ txs' = SelectSeq(txs, LAMBDA x : x \notin B)
-  /\ cache' = IF KeepCommittedInCache THEN cache ELSE cache \ (B \cap SeqSet(txs))
+  /\ cache' = IF KeepCommittedInCache THEN cache \cup B ELSE cache \ (B \cap SeqSet(txs))
   /\ committed' = committed \cup B
   /\ resub' = resub \ B
   /\ res' = [op |-> "Update", B |-> B]
+  /\ UNCHANGED flushed
 
-Flush == /\ txs' = <<>> /\ cache' = {} /\ res' = [op |-> "Flush"] /\ UNCHANGED <<committed, resub>>
+Flush == /\ txs' = <<>> /\ cache' = {} /\ flushed' = TRUE /\ res' = [op |-> "Flush"] /\ UNCHANGED <<committed, resub>>
 
 Blocks == {B \in SUBSET Txs : Cardinality(B) <= MaxBlk}
 Next == \/ \E x \in Txs, r \in {"ok", "exist", "full"} : Receive(x, r)
@@ -55,4 +57,6 @@ RejectsDuplicates == [][ (res'.op = "Receive" /\ res'.x \in SeqSet(txs)) => res'
 \* a committed transaction is never offered again (Flush empties the cache on purpose: excluded via resub)
 NoReofferCommitted == SeqSet(txs) \cap (committed \ resub) = {}
 NoReofferStrict == SeqSet(txs) \cap committed = {}
+\* with the cache keeping committed transactions only an explicit Flush (operator RPC) makes the pool forget them
+ResubOnlyAfterFlush == resub # {} => flushed
 ===================================================================================
